@@ -60,7 +60,7 @@ def _val_eq(a, b, path, diffs, exact, loose_kinds=False):
                 va, vb = fa(*vals), fb(*vals)
             except (ZeroDivisionError, OverflowError, ValueError, TypeError):
                 continue
-            if not canon.close(va, vb, 1e-9):
+            if not canon.close(va, vb, 1e-9, 1e-9):
                 diffs.append("%s: %s vs %s differ at %s: %r vs %r" % (path, ea, eb, vals, va, vb))
                 return
         if ka == "rrt" and len(a) > 2 and len(b) > 2:
